@@ -779,13 +779,84 @@ func checkWrapperTransparency(p *Prog, r *Roles, res *Result) {
 					bad = "a path returns without calling the wrapped method"
 				}
 			}
+			// the error of the wrapped call is the error the wrapper returns (directly, or through the named result
+			// that a timing closure assigns)
+			if ei := errorResultIndex(sig); bad == "" && ei >= 0 {
+				if fc, ok := c.(*ssa.Call); ok {
+					errVal := extractsOf(fc)[ei]
+					returned := false
+					for _, b := range f.Blocks {
+						ret, ok := b.Instrs[len(b.Instrs)-1].(*ssa.Return)
+						if !ok || b.Comment == "recover" || ei >= len(ret.Results) {
+							continue
+						}
+						for _, v := range valuesThroughClosures(p, ret.Results[ei]) {
+							if v == errVal && errVal != nil {
+								returned = true
+							}
+						}
+					}
+					if !returned {
+						bad = "the error returned by the wrapped call never reaches the wrapper's error result: a failed operation is reported as success"
+					}
+				}
+			}
 			if bad != "" {
 				res.bad("C11-R5", construct, p.pos(c.Pos()), bad)
 			} else {
-				res.ok("C11-R5", construct, p.pos(c.Pos()), "one forwarded call, parameters in order")
+				res.ok("C11-R5", construct, p.pos(c.Pos()), "one forwarded call, parameters in order, its error returned")
 			}
 		}
 	}
+}
+
+// valuesThroughClosures: the values v can take, looking through local variables including the assignments that
+// function literals of the same function make to them (a named result set inside a closure).
+func valuesThroughClosures(p *Prog, v ssa.Value) []ssa.Value {
+	var out []ssa.Value
+	seen := map[ssa.Value]bool{}
+	var rec func(v ssa.Value, d int)
+	rec = func(v ssa.Value, d int) {
+		v = strip(v)
+		if v == nil || seen[v] || d > 10 {
+			return
+		}
+		seen[v] = true
+		if ph, ok := v.(*ssa.Phi); ok {
+			for _, e := range ph.Edges {
+				rec(e, d+1)
+			}
+			return
+		}
+		if u, ok := v.(*ssa.UnOp); ok && u.Op == token.MUL {
+			if cell, ok := u.X.(*ssa.Alloc); ok {
+				for _, ref := range *cell.Referrers() {
+					switch x := ref.(type) {
+					case *ssa.Store:
+						if x.Addr == ssa.Value(cell) {
+							rec(x.Val, d+1)
+						}
+					case *ssa.MakeClosure:
+						fn := x.Fn.(*ssa.Function)
+						for i, bnd := range x.Bindings {
+							if bnd != ssa.Value(cell) {
+								continue
+							}
+							for _, r2 := range *fn.FreeVars[i].Referrers() {
+								if st, ok := r2.(*ssa.Store); ok && st.Addr == ssa.Value(fn.FreeVars[i]) {
+									rec(st.Val, d+1)
+								}
+							}
+						}
+					}
+				}
+				return
+			}
+		}
+		out = append(out, v)
+	}
+	rec(v, 0)
+	return out
 }
 
 // ---------- R6 ----------
@@ -939,6 +1010,36 @@ func checkPartitionClamp(p *Prog, r *Roles, res *Result, rule string) {
 						for _, a := range c.Common().Args {
 							if p.resolveDeep(a) == ssa.Value(bound) {
 								hasBound = true
+							}
+						}
+						if k == wantKind && hasBound && wantKind == "min" {
+							// an empty engine end border means "unbounded": min would turn it into the smallest key, so
+							// the clamp must run only where the border is known to be non-empty
+							guarded := false
+							for _, a := range c.Common().Args {
+								if p.resolveDeep(a) == ssa.Value(bound) {
+									continue
+								}
+								ak := accessPath(a)
+								for _, cf := range dominatingFacts(st.Block()) {
+									if cf.X == nil {
+										continue
+									}
+									lc, ok := resolve(cf.X).(*ssa.Call)
+									if !ok {
+										continue
+									}
+									if bi, ok := lc.Common().Value.(*ssa.Builtin); !ok || bi.Name() != "len" || accessPath(lc.Common().Args[0]) != ak {
+										continue
+									}
+									if isZeroConst(cf.Y) && ((cf.Op == token.NEQ && cf.Want) || (cf.Op == token.EQL && !cf.Want) || (cf.Op == token.GTR && cf.Want)) {
+										guarded = true
+									}
+								}
+							}
+							if !guarded {
+								res.bad(rule, construct, p.pos(st.Pos()), "min(engine end border, requested end) without the guard len(engine border) != 0: the open end of the last region (empty key) becomes the smallest key and the partition covers nothing")
+								continue
 							}
 						}
 						if k == wantKind && hasBound {
